@@ -18,7 +18,6 @@ import (
 	"reflect"
 	"sort"
 	"strings"
-	"syscall"
 	"time"
 
 	"github.com/containerd/containerd/v2/core/mount"
@@ -247,45 +246,16 @@ func (w *World) Exec(st Step) (res *Result) {
 	return res
 }
 
-// leakBudget: how many bolt handles may be abandoned instead of closed. Closing
-// a bolt database munmaps its file mapping, which is disproportionately expensive
-// on the (virtualised) sandbox; an abandoned handle costs one descriptor and one
-// small mapping until the worker process exits. Teardown is not part of any
-// checked history (Close is an explicit operation of the alphabet).
-var leakBudget = func() int {
-	var lim syscall.Rlimit
-	if err := syscall.Getrlimit(syscall.RLIMIT_NOFILE, &lim); err != nil {
-		return 0
-	}
-	if lim.Cur < lim.Max {
-		lim.Cur = lim.Max
-		syscall.Setrlimit(syscall.RLIMIT_NOFILE, &lim)
-		syscall.Getrlimit(syscall.RLIMIT_NOFILE, &lim)
-	}
-	n := int(lim.Cur) - 512
-	if n > 24000 {
-		n = 24000 // stay well below vm.max_map_count
-	}
-	if n < 0 || os.Getenv("SNAPX_CLOSE_ALWAYS") != "" {
-		n = 0
-	}
-	return n
-}()
-
-// Dispose deletes the root directory and releases (or abandons, see leakBudget)
-// the bolt handle.
+// Dispose closes the snapshotter (releasing the bolt handle) and deletes the root
+// directory. Teardown is not part of any checked history.
 func (w *World) Dispose() {
 	if w.Sn != nil && !w.Closed {
-		if leakBudget > 0 {
-			leakBudget--
-		} else {
-			w.FS.Begin("dispose", nil)
-			func() {
-				defer func() { recover() }()
-				w.Sn.Close()
-			}()
-			w.FS.End()
-		}
+		w.FS.Begin("dispose", nil)
+		func() {
+			defer func() { recover() }()
+			w.Sn.Close()
+		}()
+		w.FS.End()
 		w.Closed = true
 	}
 	os.RemoveAll(w.Root)
@@ -660,6 +630,9 @@ func (w *World) Observe(meta *Meta) string {
 	return sb.String()
 }
 
+// HashString is a short stable hash.
+func HashString(s string) string { return hashStr(s) }
+
 func hashStr(s string) string {
 	h := sha256.Sum256([]byte(s))
 	return hex.EncodeToString(h[:10])
@@ -1019,4 +992,57 @@ func RunInitial(scratch string, async bool) (*Node, error) {
 	}
 	c := Canon(w.Root, m, w.FS.Table(), false)
 	return &Node{Hash: hashStr(c + "|devs=0"), Obs: w.Observe(m)}, nil
+}
+
+// ---- exact distinct counts across shard processes ------------------------------------------
+
+// SharedCount lets the shards of one part (separate worker processes of one
+// master, running concurrently or one after the other) count the union of their
+// item sets exactly: every shard drops its set into a directory shared by the
+// run (next to the per-process scratch dirs), and the shard that completes the
+// collection merges it and removes the directory. It returns (size of the union,
+// true) on exactly one shard and (0, false) on the others.
+func SharedCount(scratch, tag string, shard, of int, items []string) (int, bool) {
+	// the run is identified by the master process: pid + start time
+	ppid := os.Getppid()
+	started := "0"
+	if b, err := os.ReadFile(fmt.Sprintf("/proc/%d/stat", ppid)); err == nil {
+		if i := strings.LastIndexByte(string(b), ')'); i >= 0 {
+			if f := strings.Fields(string(b)[i+1:]); len(f) > 19 {
+				started = f[19]
+			}
+		}
+	}
+	dir := filepath.Join(filepath.Dir(scratch), fmt.Sprintf("verif-shared-%d-%s-%s", ppid, started, tag))
+	if err := os.MkdirAll(dir, 0o755); err != nil {
+		return 0, false
+	}
+	tmp := filepath.Join(dir, fmt.Sprintf(".tmp-%d", shard))
+	if err := os.WriteFile(tmp, []byte(strings.Join(items, "\n")), 0o644); err != nil {
+		return 0, false
+	}
+	if err := os.Rename(tmp, filepath.Join(dir, fmt.Sprintf("set-%d", shard))); err != nil {
+		return 0, false
+	}
+	for i := 0; i < of; i++ {
+		if _, err := os.Stat(filepath.Join(dir, fmt.Sprintf("set-%d", i))); err != nil {
+			return 0, false // somebody else will be last
+		}
+	}
+	f, err := os.OpenFile(filepath.Join(dir, "merged"), os.O_CREATE|os.O_EXCL|os.O_WRONLY, 0o644)
+	if err != nil {
+		return 0, false
+	}
+	f.Close()
+	union := map[string]struct{}{}
+	for i := 0; i < of; i++ {
+		b, _ := os.ReadFile(filepath.Join(dir, fmt.Sprintf("set-%d", i)))
+		for _, l := range strings.Split(string(b), "\n") {
+			if l != "" {
+				union[l] = struct{}{}
+			}
+		}
+	}
+	os.RemoveAll(dir)
+	return len(union), true
 }
